@@ -1134,6 +1134,13 @@ func hostileCorpus(thorough bool) []scriptCase {
 		{"error", `local t = setmetatable({}, {__newindex = function() error("ro") end}) t.x = 1`, false},
 		{"error", `local t = setmetatable({}, {__call = 5}) t()`, false},
 		{"error", `local t = setmetatable({}, {__metatable = false}) setmetatable(t, {})`, false},
+		// gopher-lua miscompiles constant conditions inside loops (finding C16-18): the VM then
+		// indexes out of range, also while formatting the traceback, and the Go panic used to
+		// leave RunLuaScript
+		{"vm-miscompile", `for a = 0, 9 do if true then end end for k in pairs({1}) do if false then return f(#{}) end end`, false},
+		{"vm-miscompile", `for a = 0, 9 do for b = 1, 14 do if true then end end end for k in pairs({1}) do if false then return f(#{}) end end`, false},
+		{"vm-miscompile", `for a = 0, 1 do for b = 1, 1 do if true then end end end while true do if false then return 1 end end`, false},
+		{"vm-miscompile", `for a = 0, 9 do if true then end end for k in pairs({1}) do if false then return 1 end end return {}`, false},
 		// syntax errors / not Lua at all
 		{"syntax", `return {{{`, false},
 		{"syntax", `)`, false},
